@@ -166,6 +166,18 @@ def cases(tier, seed):
     add("ptr_named_field_and_alias_arg_debug", st("Debug", T2, Attr([P("_1", "p"), " ", P("q", "p")], [Arg("_0.twin()", "q")])))
     add("ptr_named_field_and_alias_arg_debug_variant", en("Debug", [Variant("Other", T1), Variant("V", T2, attr=Attr([P("q", "p"), P("_0", "p")], [Arg("*_1", "q")]))]))
     add("ptr_real_named_field_and_alias_arg", st("Display", [Field(ty="refu8"), Field(ty="refu8")], Attr([P("_0", "p"), " / ", P("other", "p")], [Arg("*_1", "other")])), unwind=20)
+    # literals whose ONLY Pointer placeholders carry modifiers and name a field: still the field itself (seed C02_r3_1: no `field = *field`
+    # unless the text contained a plain `:p`)
+    add("ptr_mod_width_named", st("Display", T1, Attr([P("_0", "p", width=6)])))
+    add("ptr_mod_fillalign_named_t2", st("LowerHex", T2, Attr([P("_1", "p", fill="*", align="<", width=5), "/", P("_0")])))
+    add("ptr_mod_alt_named_n2", st("Display", N2, Attr([P("b", "p", alt=True), " ", P("a", "x")])))
+    add("ptr_mod_zero_width_named", st("Pointer", T1, Attr(["p=", P("_0", "p", zero=True, width=8)])))
+    add("ptr_mod_named_variant", en("Display", [Variant("Other", []), Variant("V", N2, attr=Attr([P("a", "p", align="^", width=7), P(None, "p", width=3)], ["*b"]))]))
+    add("ptr_mod_alt_named_debug", st("Debug", T1, Attr([P("_0", "p", alt=True)])))
+    add("ptr_mod_width_named_debug_variant", en("Debug", [Variant("Other", T1), Variant("V", T2, attr=Attr([P("_1", "p", align=">", width=4), P("_0", "?")]))]))
+    add("ptr_mod_raw_ident", st("Display", [Field("r#type")], Attr([P("type", "p", sign="+")])))
+    add("ptr_real_mod_width_named", st("Display", RU, Attr([P("_0", "p", align=">", width=20)])), unwind=24)
+    add("ptr_real_mod_alt_named_debug", st("Debug", RU, Attr(["at ", P("_0", "p", alt=True)])), unwind=24)
     # rename_all next to ANOTHER attribute of the same item, in both orders (`bound(..)` may be repeated freely; seed C02_3: a later
     # non-rename_all attribute erased the casing)
     B = "bound(Probe: Clone)"
